@@ -232,5 +232,11 @@ def inDomainL (xs : List Val) : Bool :=
 termination_by structural xs
 end
 
+/-- two lists of handles built from the same descriptions, position by position -/
+def sameDescL : List Val → List Val → Bool
+  | [], [] => true
+  | a :: as, b :: bs => sameDesc a b && sameDescL as bs
+  | _, _ => false
+
 end EqSpec
 end Stackage
